@@ -55,6 +55,7 @@ def plan(tier, seed):
     # inhomogeneous plasticity (clamped end faces: yielding and elastic quadrature points in the same evaluation)
     for first in range(len(ALPHABET)):
         cases.append(dict(key=f"history/clamped/plasticity/first={first}", kind="history", model="clamped", item="plasticity", first=first, depth=depth, seed=seed, cost=40))
+    cases.append(dict(key="curve-records", kind="curve", seed=seed, depth=depth, cost=15))
     for ramped in RAMPED[1:]:
         cases.append(dict(key=f"ramped/{ramped}", kind="ramped", ramped=ramped, seed=seed, depth=3, cost=10))
     return cases
@@ -440,5 +441,54 @@ def run_ramped(case):
     return c.result(dict(case=case["key"], histories=len(vals_alpha) ** case["depth"]))
 
 
+def run_curve(case):
+    """what a CharacteristicCurve job RECORDS along a history: every history (depth <= 3) x {one step, split after the first
+    substep} x {body's own container, separate top-level container x0 carrying the boundaries}: one record per substep, the
+    i-th abscissa is the i-th ramp value, the callback sees the same substep, equal abscissae give equal forces (elastic)"""
+    import felupe as fem
+
+    warnings.simplefilter("ignore")
+    c = Ctx(case["key"])
+    for n in range(1, min(case["depth"], 3) + 1):
+        for hist in itertools.product(range(len(ALPHABET)), repeat=n):
+            vals = [ALPHABET[i] for i in hist]
+            for split in ([None] if n == 1 else [None, 1]):
+                for usex0 in (False, True):
+                    mesh = fem.Cube(n=2)
+                    region = fem.RegionHexahedron(mesh)
+                    field = fem.FieldContainer([fem.Field(region, dim=3)])
+                    body = fem.SolidBody(fem.NeoHooke(mu=1.0, bulk=5.0), field)
+                    top = fem.FieldContainer([fem.Field(region, dim=3)]) if usex0 else field
+                    bounds, lc = fem.dof.uniaxial(top, clamped=False, move=0.0, axis=0, sym=True)
+                    parts = [vals] if split is None else [vals[:split], vals[split:]]
+                    steps = [fem.Step([body], ramp={bounds["move"]: list(pt)}, boundaries=bounds) for pt in parts]
+                    seen = []
+
+                    def cb(j, i, substep, seen=seen):
+                        seen.append(float(substep.x[0].values[bounds["move"].points[0], 0]))
+
+                    job = fem.CharacteristicCurve(steps=steps, boundary=bounds["move"], callback=cb)
+                    job.evaluate(verbose=False, **(dict(x0=top) if usex0 else {}))
+                    c.trans += n
+                    c.traces += 1
+                    sub = f"hist={list(hist)}/split={split}/x0={'separate' if usex0 else 'own'}"
+                    if len(job.x) != n or len(job.y) != n or len(seen) != n:
+                        c.bad(sub + "/records", "one curve record and one callback per converged substep", [len(job.x), len(job.y), len(seen)], n)
+                        continue
+                    xs = [float(np.ravel(x)[0]) for x in job.x]
+                    if xs != vals:
+                        c.bad(sub + "/abscissa", "the i-th recorded abscissa is the i-th ramp value", xs, vals)
+                    if seen != vals:
+                        c.bad(sub + "/callback", "the callback of substep i sees the i-th ramp value on the moved boundary", seen, vals)
+                    ys = [float(np.ravel(y)[0]) for y in job.y]
+                    for i in range(n):
+                        for k in range(i):
+                            if vals[i] == vals[k] and abs(ys[i] - ys[k]) > 1e-6 * max(abs(ys[i]), 1e-3):
+                                c.bad(sub + f"/force{k},{i}", "equal prescribed displacement gives equal recorded force (elastic body)", [ys[k], ys[i]], "equal", 1e-6)
+                    c.nontrivial.append(sub)
+                    c.seen[sub] = 1
+    return c.result(dict(case=case["key"]))
+
+
 def run(case):
-    return {"history": run_history, "ramped": run_ramped}[case["kind"]](case)
+    return {"history": run_history, "ramped": run_ramped, "curve": run_curve}[case["kind"]](case)
